@@ -3613,10 +3613,20 @@ class Fused(Blockwise):
 
     def _task(self, index):
         graph = {self._name: (self.exprs[0]._name, index)}
+        local_names = {_expr._name for _expr in self.exprs}
+        # Aliases of a nested group to its own dependencies: (key, dependency).
+        # The nested group numbers its placeholders itself, so they have to be
+        # translated instead of being merged as they are.
+        nested_aliases = []
         for _expr in self.exprs:
             if isinstance(_expr, Fused):
                 subgraph, name = _expr._task(index)[1:3]
-                graph.update(subgraph)
+                nested_deps = _expr.dependencies()
+                for key, task in subgraph.items():
+                    if _is_fused_placeholder(task):
+                        nested_aliases.append((key, nested_deps[int(task[1:])]))
+                    else:
+                        graph[key] = task
                 graph[(name, index)] = name
             elif self._broadcast_dep(_expr):
                 # When _expr is being broadcasted, we only
@@ -3628,7 +3638,6 @@ class Fused(Blockwise):
         # The group members refer to their external dependencies by the names
         # those had when the group was formed. A later rewrite may have replaced
         # the dependency operands (same order), so alias the original names too.
-        local_names = {_expr._name for _expr in self.exprs}
         original_deps = [
             operand
             for _expr in self.exprs
@@ -3636,11 +3645,23 @@ class Fused(Blockwise):
             if operand._name not in local_names
         ]
         dependencies = self.dependencies()
+        position = {}
         if len(original_deps) == len(dependencies):
             for i, dep in enumerate(original_deps):
                 graph[self._blockwise_arg(dep, index)] = "_" + str(i)
+                position.setdefault(dep._name, i)
         for i, dep in enumerate(dependencies):
             graph[self._blockwise_arg(dep, index)] = "_" + str(i)
+            position.setdefault(dep._name, i)
+
+        for key, dep in nested_aliases:
+            if key in graph:
+                # already defined by a member of this group or aliased above
+                continue
+            if dep._name in local_names:
+                graph[key] = self._blockwise_arg(dep, index)
+            elif dep._name in position:
+                graph[key] = "_" + str(position[dep._name])
 
         return (
             Fused._execute_task,
@@ -3653,6 +3674,10 @@ class Fused(Blockwise):
         for i, dep in enumerate(deps):
             graph["_" + str(i)] = dep
         return dask.core.get(graph, name)
+
+
+def _is_fused_placeholder(task):
+    return isinstance(task, str) and task[:1] == "_" and task[1:].isdigit()
 
 
 # Used for sorting with None
